@@ -66,6 +66,12 @@ fn history(s: &Session, seed: u64, len: usize, ch: &mut Chooser) -> Result<Strin
     let mut earlier: Vec<([u8; 16], [u8; 20])> = vec![];
     let mut label = String::new();
     for attempt in 0..len {
+        // deviation: the application keeps going with a COPY of the server object (sessions are stored in maps and cloned
+        // out of them); a copy is the same session: same name, key and the challenge currently on offer
+        if ch.pick(2, "continue-on-a-clone") == 1 {
+            let c = server.clone();
+            drop(std::mem::replace(&mut server, c));
+        }
         let current = *server.reconnect_challenge_data();
         if current != *challenges.last().unwrap() {
             return Err(format!("attempt {attempt}: challenge on offer changed without an attempt"));
@@ -385,7 +391,7 @@ pub fn run(tier: Tier, seed: u64) -> i32 {
     let total_exec = total_exec + report.get("long_history_attempts");
     report.set("evaluations", json!(total_exec));
     report.set("distinct_nontrivial", json!(total_exec.saturating_sub(ss.len() as u64 * plans.len() as u64)));
-    report.set("rule", json!("every history of the stated length in which at most d attempts/refreshes deviate from {honest proof for the current challenge, fresh refresh}; per attempt the adversary alphabet is {replay of each earlier pair, proof for each stale challenge, 40 wrong-key variants, 2 wrong-username variants, 160 proof bit flips, 128 client-data bit flips}, per refresh {fresh, repeat of each earlier challenge}; distinct_nontrivial = executions with at least one deviation"));
+    report.set("rule", json!("every history of the stated length in which at most d attempts/refreshes deviate from {honest proof for the current challenge, fresh refresh}; per attempt the adversary alphabet is {replay of each earlier pair, proof for each stale challenge, 40 wrong-key variants, 2 wrong-username variants, 160 proof bit flips, 128 client-data bit flips}, per refresh {fresh, repeat of each earlier challenge, all-zero, all-ones}, before each attempt {go on with the same server object, go on with a clone of it}; distinct_nontrivial = executions with at least one deviation"));
     report.set("states", json!(report.get("choice_points")));
     report.set("transitions", json!(report.get("choice_points")));
     report.set("traces_validated_against_impl", json!(total_exec));
